@@ -265,11 +265,43 @@ func topLevelOp(term, op string) int {
 // At returns the reaching condition of block b.
 func (p *PathConds) At(b *ssa.BasicBlock) dnf { return p.cond[b] }
 
+// domMust: literals implied by dominance alone — for every dominator d of b that ends in
+// a two-way branch, if b is dominated by a successor s of d that can only be entered
+// through that edge, the literal of the edge d->s holds at b. Sound regardless of the
+// size of the path condition.
+func (p *PathConds) domMust(b *ssa.BasicBlock) []string {
+	var out []string
+	seen := map[string]bool{}
+	for x := b; x != nil; x = x.Idom() {
+		d := x.Idom()
+		if d == nil {
+			break
+		}
+		if len(d.Succs) != 2 || d.Succs[0] == d.Succs[1] {
+			continue
+		}
+		for _, s := range d.Succs {
+			if len(s.Preds) == 1 && s.Dominates(b) {
+				if isLoopHeader(d) && !loopBody(d)[s] {
+					continue
+				}
+				if lit := p.edgeLit(d, s); lit != "" && !seen[lit] {
+					seen[lit] = true
+					out = append(out, lit)
+				}
+			}
+		}
+	}
+	return out
+}
+
 // Must returns the literals that hold on every path to b.
 func (p *PathConds) Must(b *ssa.BasicBlock) []string {
 	d := p.cond[b]
 	if d.unknown || len(d.cs) == 0 {
-		return nil
+		out := p.domMust(b)
+		sort.Strings(out)
+		return out
 	}
 	count := map[string]int{}
 	for _, c := range d.cs {
